@@ -357,3 +357,165 @@ Proof.
   specialize (H l Hl). apply andb_true_iff in H. destruct H as [H1 H2].
   split; [apply nodupb_ok; exact H1 | apply Nat.leb_le; exact H2].
 Qed.
+
+(* ------------------------------------------------------------------ *)
+(*  C04: generated text sits inside the construct                       *)
+(* ------------------------------------------------------------------ *)
+(* a token of the output of a handler called for a macro at position p with
+   arguments args: an argument token as it is, or a generated token whose
+   position is p or the position of an argument token *)
+Definition in_construct (args : list (list tok)) (p : Z) (t : tok) : Prop :=
+  (exists a, In a args /\ In t a) \/ pos t = p \/
+  (exists a x, In a args /\ In x a /\ pos t = pos x).
+
+Lemma last_pos_in l p : last_pos l = Ok p -> exists x, In x l /\ p = pos x.
+Proof.
+  unfold last_pos, py_last. destruct (rev l) as [|x r] eqn:E; simpl; intros H; inversion H.
+  exists x. split; [apply in_rev; rewrite E; left|]; reflexivity.
+Qed.
+
+Lemma arg_in args i a : arg args i = Ok a -> In a args.
+Proof.
+  unfold arg, py_nth. destruct (nth_error args i) eqn:E; intros H; inversion H; subst.
+  eapply nth_error_In. exact E.
+Qed.
+
+Section Handlers.
+  Variable T : tables.
+  Variable rd : str -> option str.
+  Variable rec : recfun.
+
+  Theorem cite_in_construct fuel st buf name args p st' o :
+    run_handler T rd rec fuel HCite st buf name args p = Ok (st', o) ->
+    Forall (in_construct args p) o /\ st' = st.
+  Proof.
+    cbn [run_handler]. unfold h_cite.
+    destruct (arg args 0) as [a0| | |] eqn:Ea; cbn [rbind]; try discriminate.
+    apply arg_in in Ea. destruct a0 as [|x a0'].
+    - intros H. inversion H; subst. split; [|reflexivity].
+      assert (Hg : forall k s f, in_construct args p (mk k p s f)) by (intros; right; left; reflexivity).
+      repeat (constructor; [apply Hg|]). constructor.
+    - destruct (last_pos (x :: a0')) as [lp| | |] eqn:El; cbn [rbind]; try discriminate.
+      intros H. inversion H; subst. split; [|reflexivity].
+      apply last_pos_in in El. destruct El as (y & Hy & Ey).
+      constructor; [right; left; reflexivity|]. constructor; [right; left; reflexivity|].
+      match goal with |- Forall _ (x :: a0' ++ ?tl) =>
+        change (Forall (in_construct args p) ((x :: a0') ++ tl)) end.
+      apply Forall_app. split.
+      + apply Forall_forall. intros z Hz. left. exists (x :: a0'). split; assumption.
+      + assert (Hg : forall k s f, in_construct args p (mk k lp s f)).
+        { intros k s f. right. right. exists (x :: a0'), y. repeat split; assumption. }
+        constructor; [apply Hg|]. constructor; [apply Hg | constructor].
+  Qed.
+
+  Theorem theorem_title_in_construct fuel title st buf name args p st' o :
+    run_handler T rd rec fuel (HTheorem title) st buf name args p = Ok (st', o) ->
+    Forall (in_construct args p) o /\ st' = st.
+  Proof.
+    cbn [run_handler].
+    destruct (arg args 0) as [a0| | |] eqn:Ea; cbn [rbind]; try discriminate.
+    apply arg_in in Ea. destruct a0 as [|x a0'].
+    - intros H. inversion H; subst. split; [|reflexivity].
+      assert (Hg : forall k s f, in_construct args p (mk k p s f)) by (intros; right; left; reflexivity).
+      repeat (constructor; [apply Hg|]). constructor.
+    - destruct (last_pos (x :: a0')) as [lp| | |] eqn:El; cbn [rbind]; try discriminate.
+      intros H. inversion H; subst. split; [|reflexivity].
+      apply last_pos_in in El. destruct El as (y & Hy & Ey).
+      constructor; [right; left; reflexivity|]. constructor; [right; left; reflexivity|].
+      constructor; [right; left; reflexivity|].
+      match goal with |- Forall _ (x :: a0' ++ ?tl) =>
+        change (Forall (in_construct args p) ((x :: a0') ++ tl)) end.
+      apply Forall_app. split.
+      + apply Forall_forall. intros z Hz. left. exists (x :: a0'). split; assumption.
+      + assert (Hg : forall k s f, in_construct args p (mk k lp s f)).
+        { intros k s f. right. right. exists (x :: a0'), y. repeat split; assumption. }
+        constructor; [apply Hg|]. constructor; [apply Hg | constructor].
+  Qed.
+
+  (* headings: the argument as it is, plus at most a full stop at the
+     position of its last token *)
+  Theorem heading_in_construct fuel st buf name args p st' o :
+    run_handler T rd rec fuel HHeading st buf name args p = Ok (st', o) ->
+    Forall (in_construct args p) o /\
+    exists a2, arg args 2 = Ok a2 /\
+               (o = a2 \/ exists lp, last_pos a2 = Ok lp /\ o = a2 ++ [TextT lp (s2l ".")]).
+  Proof.
+    cbn [run_handler].
+    destruct (arg args 2) as [a2| | |] eqn:Ea; cbn [rbind]; try discriminate.
+    pose proof (arg_in _ _ _ Ea) as Hin.
+    destruct (get_text_expanded rec st a2) as [[st1 s]| | |]; cbn [rbind]; try discriminate.
+    assert (Hall : Forall (in_construct args p) a2).
+    { apply Forall_forall. intros z Hz. left. exists a2. split; assumption. }
+    intros H.
+    assert (Hcase : (st1, a2) = (st', o) \/
+                    exists lp, last_pos a2 = Ok lp /\ (st1, a2 ++ [TextT lp (s2l ".")]) = (st', o)).
+    { destruct (rev _) as [|c rr]; [left; inversion H; reflexivity|].
+      destruct (t_heading_punct T) as [|h hs]; [left; inversion H; reflexivity|].
+      destruct (mem_str [c] (h :: hs)); [left; inversion H; reflexivity|].
+      destruct (last_pos a2) as [lp| | |] eqn:El; cbn [rbind] in H; try discriminate.
+      right. exists lp. split; [reflexivity | inversion H; reflexivity]. }
+    destruct Hcase as [E|(lp & El & E)]; inversion E; subst.
+    - split; [exact Hall|]. exists o. split; [reflexivity | left; reflexivity].
+    - split.
+      + apply Forall_app. split; [exact Hall|]. apply last_pos_in in El.
+        destruct El as (y & Hy & Ey). constructor; [|constructor]. right. right.
+        exists a2, y. repeat split; assumption.
+      + exists a2. split; [reflexivity|]. right. exists lp. split; [exact El | reflexivity].
+  Qed.
+End Handlers.
+
+(* ------------------------------------------------------------------ *)
+(*  C11: displayed equations, simple mode and removed environments      *)
+(* ------------------------------------------------------------------ *)
+Section DisplayMath.
+  Variable T : tables.
+  Variable rd : str -> option str.
+  Variable rec : recfun.
+
+  (* with the simple-equations option the whole equation is one placeholder
+     of the display collection plus its final punctuation mark, all at the
+     start of the equation *)
+  Theorem display_simple fuel st buf t ename st' o rest :
+    expand_display_math T rec fuel st buf t ename false = Ok (st', (o, rest)) ->
+    displayed_simple st' = true ->
+    exists ph pc,
+      hd_error (get_repls st' true) = Some ph /\
+      o = [ActionT (pos t); SpaceF (pos t) [c_space; c_space]; TextF (pos t) ph]
+          ++ pc ++ [ActionT (pos t)] /\
+      (pc = [] \/ exists c, pc = [TextF (pos t) [c]]
+                            /\ mem_str [c] (t_math_punctuation T) = true).
+  Proof.
+    unfold expand_display_math.
+    destruct (display_sections T rec fuel st buf (pos t) ename true true _)
+      as [[[[st1 out] rest1] z]| | |]; cbn [rbind]; try discriminate.
+    destruct (last_pos out) as [lp| | |]; cbn [rbind]; try discriminate.
+    destruct (displayed_simple st1) eqn:Eds.
+    - destruct (get_repls st1 true) as [|ph r] eqn:Eg; [discriminate|].
+      intros H Hs. inversion H; subst. exists ph.
+      destruct (rev (strip (t_is_space T) (get_text_direct out))) as [|c rr].
+      + exists []. rewrite Eg. repeat split. left. reflexivity.
+      + destruct (mem_str [c] (t_math_punctuation T)) eqn:Em.
+        * exists [TextF (pos t) [c]]. rewrite Eg. repeat split. right. exists c. split; [reflexivity | exact Em].
+        * exists []. rewrite Eg. repeat split. left. reflexivity.
+    - intros H Hs. inversion H; subst. congruence.
+  Qed.
+
+  (* an equation environment declared as removed leaves its final
+     punctuation mark at most *)
+  Theorem display_removed fuel st buf t ename st' o rest :
+    expand_display_math T rec fuel st buf t ename true = Ok (st', (o, rest)) ->
+    exists lp, o = [ActionT lp] \/
+               exists c, o = [TextF lp [c]] /\ mem_str [c] (t_math_punctuation T) = true.
+  Proof.
+    unfold expand_display_math.
+    destruct (display_sections T rec fuel st buf (pos t) ename true true _)
+      as [[[[st1 out] rest1] z]| | |]; cbn [rbind]; try discriminate.
+    destruct (last_pos out) as [lp| | |]; cbn [rbind]; try discriminate.
+    intros H. exists lp.
+    destruct (rev (strip (t_is_space T) (get_text_direct out))) as [|c rr].
+    - inversion H; subst. left. reflexivity.
+    - destruct (mem_str [c] (t_math_punctuation T)) eqn:Em; inversion H; subst.
+      + right. exists c. split; [reflexivity | exact Em].
+      + left. reflexivity.
+  Qed.
+End DisplayMath.
